@@ -429,6 +429,32 @@ def _(c):
     c.ensure("closed_form_condition", ok_closed)
     c.ensure("label_matches_direction", ok_label)
     c.ensure("events_found", len(events) >= 1 or step > 0)
+    # the same span iterated backwards in time (stop before start): the crossings are found at the same instants (bisection resolution), each strictly between the two
+    # samples that bracket it -- never ON a sample --, and satisfies its closed-form condition.  (Labels are not compared: which way a crossing "goes" when time runs
+    # backwards is a convention the property does not fix.)
+    if prop == "kepler" and c.integer("lset") in (0, 1):
+        back = list(src.iter(start=stop, stop=d0, step=timedelta(seconds=step), listeners=mk()))
+        b_samples = [o for o in back if not o.event]
+        b_events = [o for o in back if o.event]
+        fwd = sorted(e.date for e in events)
+        bwd = sorted(e.date for e in b_events)
+        # (crossings within one step of either end of the span may belong to one direction only: the two sample grids differ)
+        inner = lambda ds: [d for d in ds if (d - d0).total_seconds() > step and (stop - d).total_seconds() > step]
+        fi, bi = inner(fwd), inner(bwd)
+        ok_same = len(fi) == len(bi) and all(abs((a - b).total_seconds()) <= 1e-4 for a, b in zip(fi, bi))
+        sample_dates = set((o.date._d, round(o.date._s, 6)) for o in b_samples)
+        ok_inside = all((e.date._d, round(e.date._s, 6)) not in sample_dates for e in b_events)
+        ok_cf = True
+        for e in b_events:
+            cart = np.asarray(e.copy(form="cartesian"), dtype=float)
+            if c.integer("lset") == 0:
+                ok_cf = ok_cf and abs(cart[2]) < 0.1
+            else:
+                ok_cf = ok_cf and abs(cart[:3] @ cart[3:] / np.linalg.norm(cart[:3])) < 1e-3
+        c.ensure("backwards.same_crossings_as_forwards", ok_same)
+        c.ensure("backwards.events_strictly_between_samples", ok_inside)
+        c.ensure("backwards.closed_form_condition", ok_cf)
+        c.ensure("backwards.stream_runs_backwards", all(a.date >= b.date for a, b in zip(b_samples, b_samples[1:])))
 
 
 def _grid_station(tier, rng):
